@@ -102,7 +102,11 @@ func c20oCheck(t stats.TB, part string, c *evmgen.Case, o *evmgen.Outcome, repor
 	lab("regime:" + regime)
 	lab("mode:" + c.Mode)
 	if o.Broken != "" {
-		viol("C20/O/post-state-unhashable", "the post-state cannot be hashed: "+o.Broken, nil)
+		fp := "C20/O/post-state-unhashable"
+		if evmgen.BrokenBySuicideSize(o.Broken) {
+			fp = evmgen.FpSuicideSize
+		}
+		viol(fp, "the post-state cannot be hashed: "+o.Broken, nil)
 		return rp
 	}
 	if o.Res.Err != nil {
